@@ -571,6 +571,15 @@ fn text(t: &mut Tasks) {
                 ctx.violation("ill-formed-text-accepted", "WasmVersion", b.len(), json!({"type": "WasmVersion", "text": b}), json!({}));
             }
         }
+        // (observation O13, outside the listed forms: the JSON object form divides by gcd(n, d))
+        for (n, d) in [(0u64, 0u64), (0, 5), (5, 0), (4, 6)] {
+            ctx.evals += 1;
+            let js = format!("{{\"numerator\":{n},\"denominator\":{d}}}");
+            match mc_core::catch(|| serde_json::from_str::<ExchangeRate>(&js).ok().map(|r| (r.numerator(), r.denominator()))) {
+                Ok(r) => ctx.outcome(&format!("exchange rate JSON {js}: {r:?}"), 1),
+                Err(p) => ctx.outcome(&format!("exchange rate JSON {js}: panic ({})", p.chars().take(60).collect::<String>()), 1),
+            }
+        }
         // exchange rates from decimal strings: value = numerator / denominator in lowest terms
         for (text, want) in [("1", Some((1u64, 1u64))), ("0.5", Some((1, 2))), ("2.50", Some((5, 2))), ("0.000001", Some((1, 1_000_000))), ("18446744073709551615", Some((u64::MAX, 1))), ("18446744073709551616", None), ("0", None), ("0.0", None), ("-1", None), ("", None), ("1/2", None), ("0.0000000000000000001", Some((1, 10_000_000_000_000_000_000))), ("0.00000000000000000001", None)] {
             ctx.evals += 1;
